@@ -45,6 +45,12 @@ func (c14) Gen(r *rand.Rand, tier string, run int) *core.Case {
 	}
 	c.Params["instrument"] = []int{0, 0, 0, 1, 2, 3}[r.IntN(6)]
 	if r.IntN(4) == 0 {
+		// subscribers that number their links themselves (as the clients of
+		// the reference implementation do) and offer the same number for a
+		// signal of the object
+		c.Params["own_links"] = 1
+	}
+	if r.IntN(4) == 0 {
 		c.Params["unset_level"] = 1
 	}
 	if r.IntN(4) == 0 {
@@ -349,7 +355,12 @@ func (c14) Run(c *core.Case, env *core.Env) {
 				}
 			}(i)
 		}
-		_, ch, err := p.SubscribeLevel()
+		var ch chan int32
+		if c.P("own_links", 0) == 1 {
+			ch, err = c14ownLink(env, cl, p, w.ServiceID, target, uint64(7+i))
+		} else {
+			_, ch, err = p.SubscribeLevel()
+		}
 		if err != nil {
 			env.Violate("setup/subscribe", "%v", err)
 			return
@@ -636,6 +647,40 @@ func (c14) Check(c *core.Case, env *core.Env, res zzsim.Result, v *core.Verdict)
 // c14label is the n-th value of the string property: its number, then a
 // padding of the given length; c14labelNo recovers the number of a value that
 // is intact (0 otherwise).
+// c14ownLink subscribes to the judged property the way a client does that
+// numbers its links itself: a local handler for the events plus a
+// registerEvent carrying the link. It then offers the same number for a
+// signal of the same object; where the object takes it, that second link -
+// and only it - is given up again at once. The subscription to the property
+// was never cancelled: it is owed every event.
+func c14ownLink(env *core.Env, cl bus.Client, p probe.ProbeProxy, service, object uint32, link uint64) (chan int32, error) {
+	_, raw, err := cl.Subscribe(service, object, PropLvl)
+	if err != nil {
+		return nil, err
+	}
+	if _, err := p.RegisterEvent(object, PropLvl, link); err != nil {
+		return nil, err
+	}
+	if _, err := p.RegisterEvent(object, SigTick, link); err == nil {
+		if err := p.UnregisterEvent(object, SigTick, link); err != nil {
+			return nil, err
+		}
+		env.Probe("one-link-number-for-two-signals-accepted")
+	} else {
+		env.Probe("one-link-number-for-two-signals-refused")
+	}
+	ch := make(chan int32)
+	go func() {
+		for b := range raw {
+			if len(b) >= 4 {
+				ch <- int32(uint32(b[0]) | uint32(b[1])<<8 | uint32(b[2])<<16 | uint32(b[3])<<24)
+			}
+		}
+		close(ch)
+	}()
+	return ch, nil
+}
+
 func c14label(n, pad int) string {
 	return fmt.Sprintf("%d|%d|", n, pad) + strings.Repeat("L", pad)
 }
